@@ -197,8 +197,11 @@ class SyncedList(SyncedCollection, MutableSequence):
         """
         data = _convert_numpy(data)
         if _sequence_resolver.get_type(data) == "SEQUENCE":
+            # Validate first: the context saves on exit even if the update
+            # fails, and a root that has not loaded must not save then.
+            self._validate(data)
             with self._overwrite_context():
-                self._update(data)
+                self._update(data, _validate=True)
         else:
             raise ValueError(
                 "Unsupported type: {}. The data must be a non-string sequence or None.".format(
